@@ -247,6 +247,9 @@ func judgeC13(t *testing.T, sc C13Script) (key, msg string, res *c13Result) {
 	})
 	mu.Lock()
 	defer mu.Unlock()
+	if core.IsInconclusive(err) {
+		return "inconclusive", err.Error(), nil
+	}
 	if res == nil {
 		return "C13/hang", "the session could not finish: " + fmt.Sprint(err), nil
 	}
@@ -316,12 +319,21 @@ func TestC13(t *testing.T) {
 		free := base
 		free.Cause = "none"
 		key, msg, res := judgeC13(t, free)
+		if key == "inconclusive" {
+			st.AddInconclusive()
+			return
+		}
 		judge := func(sc C13Script) {
 			if key != "" {
 				return
 			}
 			var r *c13Result
 			key, msg, r = judgeC13(t, sc)
+			if key == "inconclusive" {
+				key, msg = "", ""
+				st.AddInconclusive()
+				return
+			}
 			nt := r != nil && r.Triggered && (sc.K > 1 || sc.Busy || sc.After > 0)
 			st.Case(sc, nt, "cause:"+sc.Cause)
 			if key != "" {
